@@ -108,9 +108,14 @@ def member_text_job():
 # ---- fixed tuples with an OPEN member (Any, object, a free TypeVar, a Callable, type[X]): the arity is still part of the type
 OPEN_TUPLES = ["tuple[int, typing.Any]", "tuple[str, int, object]", "tuple[int, T]", "tuple[int, typing.Callable[[int], str]]",
                "tuple[int, type[int]]", "tuple[typing.Any, int]", "typing.Tuple[int, typing.Any]", "list[tuple[int, typing.Any]]",
-               "dict[str, tuple[str, object]]", "typing.Optional[tuple[int, typing.Any]]", "tuple[int, str]"]
+               "dict[str, tuple[str, object]]", "typing.Optional[tuple[int, typing.Any]]", "tuple[int, str]",
+               # str-keyed mappings: a Python-literal text may carry keys of any class, the result may not
+               "dict[str, int]", "typing.Mapping[str, int]", "typing.MutableMapping[str, typing.List[int]]", "list[dict[str, int]]",
+               "typing.Union[int, typing.Dict[str, int]]", "dict[str, dict[str, int]]"]
 OPEN_INPUTS = ["['1', '2', '3']", "['1']", "'[1, 2, 3, 4]'", "[]", "{'a': 1, 'b': 2}", "['1', '2']", "(1,)", "[['1', '2'], ['3'], ['4', '5', '6']]",
-               "{'k': ['a']}", "{'k': ['a', 'b', 'c']}", "None", "'ab'"]
+               "{'k': ['a']}", "{'k': ['a', 'b', 'c']}", "None", "'ab'",
+               "'{1: 2}'", "b\"{1: 2, 3: '4'}\"", "'{None: 1, True: 2}'", "'{(1, 2): 3}'", "\"{b'a': 1}\"", "'{1.5: [1, 2]}'", "['{1: 2}', {'a': 1}]",
+               "{'k': '{1: 2}'}", "bytearray(b'{7: 8}')", "{1: 2}"]
 
 
 def _open_child(ann):
@@ -136,7 +141,7 @@ def _open_child(ann):
             return type(x) is tuple and len(x) == len(ar) and all(conf(m, e) for m, e in zip(ar, x))
         if og is list:
             return type(x) is list and all(conf(ar[0], e) for e in x)
-        if og is dict:
+        if og in (dict, collections.abc.Mapping, collections.abc.MutableMapping):
             return type(x) is dict and all(conf(ar[0], k) and conf(ar[1], v) for k, v in x.items())
         return type(x) is a
     out = []
